@@ -129,6 +129,7 @@ EmptyHeap ==
     pc        |-> [sf |-> 8, ms |-> 256, mf |-> 2, tf |-> 6, kf |-> 1, df |-> 3, ff |-> 5],
     mutSinceWake |-> FALSE,                \* a mutator step happened since marking of this cycle began
     resurrected  |-> {},                   \* objects resurrected in this cycle
+    leaked       |-> {},                   \* RefLock objects whose RefMut was leaked (mem::forget): frozen
     fault        |-> FALSE ]               \* an operator was applied outside its precondition
 
 NT(s, o) == NeedsTrace(s.kind[o])
@@ -184,15 +185,18 @@ CanUpgrade(s, t) == s.live[t] /\ ~(s.phase = "Sweep" /\ s.color[t] = "WW")
 RECURSIVE AccClose(_, _, _)
 AccClose(s, S, n) ==
   IF n = 0 THEN S
-  ELSE LET S2 == S \cup UNION {Kids(s, o) : o \in S}
-                    \cup {t \in UNION {s.weak[o] : o \in S} : CanUpgrade(s, t)}
+  ELSE LET open == S \ s.leaked     \* a RefLock with a leaked RefMut cannot be borrowed: nothing is read out of it
+           S2 == S \cup UNION {Kids(s, o) : o \in open}
+                    \cup {t \in UNION {s.weak[o] : o \in open} : CanUpgrade(s, t)}
        IN IF S2 = S THEN S ELSE AccClose(s, S2, n - 1)
 Acc(s) == AccClose(s, Range(s.rootS) \cup Range(s.rootD) \cup {t \in s.rootW : CanUpgrade(s, t)}, Cardinality(Obj))
 \* ... of which the harness can hold a typed pointer (a DynamicRootSet is not a Gc a client can name)
 Ordinary(s) == {o \in Acc(s) : s.kind[o] # "D"}
+\* ... and through which it can read or write (not frozen by a leaked RefMut)
+Holders(s) == Ordinary(s) \ s.leaked
 
 \* weak pointers a callback can look at (holder is accessible or the root)
-WeakEdges(s) == {<<"root", t>> : t \in s.rootW} \cup {<<o, t>> \in Obj \X Obj : o \in Acc(s) /\ t \in s.weak[o]}
+WeakEdges(s) == {<<"root", t>> : t \in s.rootW} \cup {<<o, t>> \in Obj \X Obj : o \in Acc(s) \ s.leaked /\ t \in s.weak[o]}
 WeakTargetsOfReachable(s) == s.rootW \cup UNION {s.weak[o] : o \in Reach(s)}
 
 \* an identifier may be (re)used only if no existing object or root still mentions it
@@ -259,7 +263,7 @@ ApplyBarrier(s, path, p, c) ==
 \* GcBuilder::assume_init + Context::link
 Alloc(s, o, k) ==
   [s EXCEPT !.alive[o] = TRUE, !.live[o] = TRUE, !.kind[o] = k, !.color[o] = "W",
-            !.strong[o] = <<>>, !.weak[o] = {}, !.mt.alloc = @ + 1,
+            !.strong[o] = <<>>, !.weak[o] = {}, !.mt.alloc = @ + 1, !.leaked = @ \ {o},
             !.next[o] = s.head, !.head = o,
             !.sweepPrev = IF s.phase = "Sweep" /\ s.sweepPrev = NoObj THEN o ELSE s.sweepPrev]
 
@@ -383,10 +387,11 @@ Iter(s, c) ==
            LET fromGray == s.gray # <<>>
                o  == IF fromGray THEN Last(s.gray) ELSE Last(s.grayAgain)
                s0 == IF fromGray THEN [s EXCEPT !.gray = Front(@)] ELSE [s EXCEPT !.grayAgain = Front(@)]
-           IN IF c.fault.at = 0 /\ Ticks(s, o)
+           IN IF (c.fault.at = 0 /\ Ticks(s, o)) \/ o \in s.leaked
               THEN \* the trace call unwinds: mark_one's DropGuard re-queues the object, the panic
-                   \* leaves do_collection
-                   [s |-> GrayAgain(PartialTraceObj(s0, o, c.fault.pos).s, o),
+                   \* leaves do_collection.  RefLock::trace borrows the cell, which panics (before any
+                   \* pointer is reported) while a leaked RefMut exists: such an object is never skipped
+                   [s |-> GrayAgain(PartialTraceObj(s0, o, IF o \in s.leaked THEN 0 ELSE c.fault.pos).s, o),
                     c |-> [c EXCEPT !.fault = NoFaultRec], done |-> TRUE]
               ELSE LET r  == TraceObj(s0, o)
                        c1 == IF Ticks(s, o) /\ c.fault.at > 0 THEN [c EXCEPT !.fault.at = @ - 1] ELSE c
@@ -423,7 +428,7 @@ IterTag(s, c) ==
     [] s.phase = "Mark" ->
          IF s.gray # <<>> \/ s.grayAgain # <<>> THEN
            LET o == IF s.gray # <<>> THEN Last(s.gray) ELSE Last(s.grayAgain) IN
-           <<IF s.gray # <<>> THEN "gray" ELSE "again", c.fault.at = 0 /\ Ticks(s, o)>>
+           <<IF s.gray # <<>> THEN "gray" ELSE "again", (c.fault.at = 0 /\ Ticks(s, o)) \/ o \in s.leaked>>
          ELSE IF s.rootNT THEN
            <<"root", c.fault.at = 0>>
          ELSE IF StopOf(c.kind) <= 0 THEN <<"stop-marked">>
@@ -543,6 +548,8 @@ FetchOk(s, d, hd) == HandleValid(s, hd) /\ hd.set = d
 
 \* a barrier with no adoption following it
 BarrierOnly(s, path, p, c)  == Mut(ApplyBarrier(s, path, p, c))
+\* mem::forget(p.borrow_mut(mc)): the write barrier of borrow_mut, and the cell stays mutably borrowed
+Leak(s, p)                  == [Mut(ApplyBarrier(s, "borrow_mut", p, NoObj)) EXCEPT !.leaked = @ \cup {p}]
 \* upgrade the weak pointer to `t` and, if that succeeds, store the result in `p`
 UpgradeStore(s, t, p, path) == IF CanUpgrade(s, t) THEN Link(s, p, t, path) ELSE s
 \* MarkedArena::finalize with a resurrection
